@@ -30,8 +30,10 @@ func c08(r *core.Run) {
 	r.NotDecided = []string{"fairness of prices", "history-level reasoning is replaced by per-write guards (sound because every writer of Names/Forsale is covered by a row)"}
 	r.Rule("C08/R1", "every write of rns Names/Forsale (and every coin move) in a handler lies, on all committing paths, behind the owner-consent guard of that handler's row; handlers writing those prefixes without a row are violations")
 	r.Rule("C08/R2", "all comparisons between block height and Names.Expires classify the boundary height==Expires the same way (one liveness predicate)")
+	r.Rule("C08/R4", "the rns store getters are faithful: each returns on every path the variable its single store read (under the key built from its parameters) was decoded into, otherwise untouched — the record the owner checks are applied to is the record stored under the requested name")
 	r.Rule("C08/R3", "payment on ownership change: Buy pays Forsale.Owner the Forsale.Price; AcceptBid pays the signer (verified owner) the Bids.Price")
 
+	r.Floor("C08/R4", gettersFaithful(r, "C08/R4", "rns"), 3, "rns store getters")
 	hs, err := p.Handlers()
 	if err != nil {
 		r.Undecided("C08/R1", "handlers", "", err.Error())
